@@ -275,7 +275,7 @@ func (e *Engine) checkTupleToSubjectSet(
 				x.WithToken(prevPage))
 			if err != nil {
 				g.Add(checkgroup.ErrorFunc(err))
-				return
+				break
 			}
 
 			for _, t := range tuples {
